@@ -210,9 +210,11 @@ def atom_case(ctx, forms, noise, n, variant, m, cells, corrupt=None):
 # (B) floating point reconstruction
 # ------------------------------------------------------------------------------------------------
 def recon_case(ctx, s, idx, bmkind="grid", adaptive=False):
-    """adaptive=True: the same reconstruction with adaptive=True and the controller pinned to dt_min = dt with
-    tolerances nobody can meet: every trial is rejected down to dt_min and then accepted, so the forward and the reverse
-    solve both walk the uniform grid of half steps dt/2 (the property is not restricted to fixed steps)."""
+    """adaptive=True: the same reconstruction with adaptive=True and the controller pinned to dt_min = dt: the error
+    estimate is scripted (always 2: "too large"), so every trial is rejected down to dt_min and then accepted, and the
+    forward and the reverse solve both walk the uniform grid of half steps dt/2 (the property is not restricted to fixed
+    steps).  (Unmeetable tolerances alone do not pin the controller: a trial whose full step and half steps agree bit
+    for bit has estimate 0 and lets the step grow.)"""
     noise, b, d, m, hden, n = s["noise"], s["batch"], s["d"], s["m"], s["hden"], s["n"]
     dyadic = hden & (hden - 1) == 0
     dt = 1.0 / hden
@@ -222,7 +224,7 @@ def recon_case(ctx, s, idx, bmkind="grid", adaptive=False):
     sde = H.SmoothSDE(noise, d, m, seed=ctx.seed * 31 + idx)
     y0 = torch.randn(b, d, generator=gen, dtype=F64)
     ts = torch.tensor([t0 + j * dt for j in range(n + 1)], dtype=F64)
-    akw = dict(adaptive=True, dt_min=dt, rtol=1e-30, atol=1e-30) if adaptive else {}
+    akw = dict(adaptive=True, dt_min=dt, rtol=1e-3, atol=1e-3) if adaptive else {}
     if bmkind == "grid":
         if adaptive:             # the adaptive loop asks for full steps and half steps: a grid of half steps
             incs = torch.randn(2 * n, b, m, generator=gen, dtype=F64) * math.sqrt(dt / 2)
@@ -235,6 +237,10 @@ def recon_case(ctx, s, idx, bmkind="grid", adaptive=False):
                                          entropy=ctx.seed * 1000 + idx)
     bm = H.RecordingBrownian(base)
     key = dict(part="recon" if not adaptive else "recon_adaptive", noise=noise, grid="dyadic" if dyadic else "nondyadic", bm=bmkind)
+    from torchsde._core import adaptive_stepping as _as
+    orig_err = _as.compute_error
+    if adaptive:
+        _as.compute_error = lambda *a, **k: 2.0
     try:
         with torch.no_grad(), H.quiet():
             ys, (f, g, z) = torchsde.sdeint(sde, y0, ts, bm=bm, method="reversible_heun", dt=dt, extra=True, **akw)
@@ -247,6 +253,8 @@ def recon_case(ctx, s, idx, bmkind="grid", adaptive=False):
                          f"forward/reverse solve raised {type(e).__name__}: {str(e)[:200]}",
                          replay=dict(s, seed=ctx.seed, idx=idx, bm=bmkind))
         return 0.0, 1.0, False
+    finally:
+        _as.compute_error = orig_err
     scale = float(ys.abs().max())
     err = float((ysr.flip(0) - ys).abs().max())
     err_extra = float((zr - y0).abs().max())
